@@ -131,6 +131,74 @@ func (g *Gen) Prelude() [][]string {
 	return out
 }
 
+// Aliasing returns a short scripted opening for programme number pn: a value is created by one command, changed through
+// a second key-local command that an implementation may perform in place, then a value is created the same way under
+// ANOTHER key, and both are read. What one key's command does to memory must never show through another key (shared
+// default objects, recycled buffers). Every (creator, mutator) pair comes up once every len(pairs) programmes.
+func (g *Gen) Aliasing(pn int) [][]string {
+	a, b := "al1", "al2"
+	type pair struct{ create, mutate func(k string) []string }
+	var creators, mutators []func(k string) []string
+	var readers func(k string) []string
+	switch g.Family {
+	case "string":
+		for _, c := range [][]string{{"incr"}, {"decr"}, {"incrby", "5"}, {"decrby", "5"}, {"append", "ab"}, {"set", "ab"}, {"setnx", "ab"}, {"mset", "ab"},
+			{"setex", "100", "ab"}, {"incrbyfloat", "1.5"}, {"setrange", "0", "ab"}, {"set", "10"}} {
+			c := c
+			creators = append(creators, func(k string) []string {
+				if c[0] == "setex" {
+					return []string{"setex", k, c[1], c[2]}
+				}
+				return append([]string{c[0], k}, c[1:]...)
+			})
+		}
+		for _, m := range [][]string{{"setrange", "0", "9"}, {"append", "z"}, {"setrange", "1", "q"}, {"incr"}, {"incrbyfloat", "0.5"}} {
+			m := m
+			mutators = append(mutators, func(k string) []string { return append([]string{m[0], k}, m[1:]...) })
+		}
+		readers = func(k string) []string { return []string{"get", k} }
+	case "hash":
+		for _, c := range [][]string{{"hset", "f", "1"}, {"hincrby", "f", "1"}, {"hincrbyfloat", "f", "1.5"}, {"hsetnx", "f", "10"}, {"hset", "f", "ab"}} {
+			c := c
+			creators = append(creators, func(k string) []string { return append([]string{c[0], k}, c[1:]...) })
+		}
+		for _, m := range [][]string{{"hincrby", "f", "1"}, {"hincrbyfloat", "f", "0.5"}, {"hset", "f", "zz"}, {"hset", "g", "1"}, {"hdel", "f"}} {
+			m := m
+			mutators = append(mutators, func(k string) []string { return append([]string{m[0], k}, m[1:]...) })
+		}
+		readers = func(k string) []string { return []string{"hgetall", k} }
+	case "list":
+		for _, c := range [][]string{{"rpush", "a"}, {"lpush", "a", "b"}, {"rpush", "a", "b", "c"}} {
+			c := c
+			creators = append(creators, func(k string) []string { return append([]string{c[0], k}, c[1:]...) })
+		}
+		for _, m := range [][]string{{"lset", "0", "z"}, {"lpush", "q"}, {"lpop"}, {"lrem", "0", "a"}, {"ltrim", "0", "0"}} {
+			m := m
+			mutators = append(mutators, func(k string) []string { return append([]string{m[0], k}, m[1:]...) })
+		}
+		readers = func(k string) []string { return []string{"lrange", k, "0", "-1"} }
+	case "set":
+		for _, c := range [][]string{{"sadd", "a"}, {"sadd", "a", "b"}} {
+			c := c
+			creators = append(creators, func(k string) []string { return append([]string{c[0], k}, c[1:]...) })
+		}
+		for _, m := range [][]string{{"sadd", "z"}, {"srem", "a"}, {"spop"}} {
+			m := m
+			mutators = append(mutators, func(k string) []string { return append([]string{m[0], k}, m[1:]...) })
+		}
+		readers = func(k string) []string { return []string{"smembers", k} }
+	default:
+		return nil
+	}
+	n := len(creators) * len(mutators)
+	i := pn % n
+	c, m := creators[i/len(mutators)], mutators[i%len(mutators)]
+	fix := func(x []string) []string { // mset key value: the generic builder put the key first already
+		return x
+	}
+	return [][]string{fix(c(a)), readers(a), m(a), readers(a), fix(c(b)), readers(b), readers(a), {"del", a, b}}
+}
+
 // Next returns the next command of the programme.
 func (g *Gen) Next() []string {
 	var a []string
